@@ -139,5 +139,10 @@ Definition g_ex (k : okind) (hs : list head) : list bool -> bool -> list row -> 
 Definition enc_head (m : Z) : head :=
   fun tr _ x ar => if existsb (fun t => t) tr then [] else map (Z.mul m) (x ++ concat ar).
 
-Definition enc_heads (k : nat) : list head :=
-  map (fun j => enc_head (Z.of_nat j + 1)) (seq 0 k).
+(* an output with no trailing dimension (shape (batch,) per call): m * (first entry of x_i) *)
+Definition enc_head1 (m : Z) : head :=
+  fun tr _ x _ => if existsb (fun t => t) tr then [] else [m * hd 0 x].
+
+(* [sc j]: output j is of the scalar-per-example kind *)
+Definition enc_heads (sc : nat -> bool) (k : nat) : list head :=
+  map (fun j => if sc j then enc_head1 (Z.of_nat j + 1) else enc_head (Z.of_nat j + 1)) (seq 0 k).
